@@ -10,6 +10,8 @@
 //!
 //! Observation (all through the contract's own queries, plus the raw keys the cw4 spec publishes):
 //!   admin hooks members total  mh=<addr>@<h>:<w|->,…  th=<h>:<w>,…  rawtotal=<n|->  rawmem=<addr>:<w|->,…
+//!   hs=<h>,… (recorded heights)  mlog=<addr>@<h>:<old|->,…  tlog=<h>:<old|->,…  (raw dumps of the two snapshot
+//!   changelogs: with them the observation determines the whole state — model resynchronisation)
 // SCENARIO cw4group crate::scen_cw4group::GroupScen::new()
 // SCENARIO cw4groupwide crate::scen_cw4group::GroupScen::new_wide()
 //
